@@ -29,11 +29,12 @@ def _ob(tag, chk, state, kind, nv=1, ctxf=0, level=0, nargs=0, force10=False, ex
                       "collected_args": nargs, "inside_skipped_section": force10, "extras": list(extra)})
 
 
-def parse_step_obs(chk, tag, states=range(0, 16), checks="none", callbacks=False, comments=False, tok=None, tier="quick"):
+def parse_step_obs(chk, tag, states=range(0, 16), checks="none", callbacks=False, comments=False, tok=None, tier="quick", ntok=2, extra_all=()):
     obs = []
     S = set(states)
     def add(*a, **kw):
-        obs.append(_ob(tag, chk, *a, checks=checks, tok=tok, **kw))
+        kw["extra"] = tuple(kw.get("extra", ())) + tuple(extra_all)
+        obs.append(_ob(tag, chk, *a, checks=checks, tok=tok, ntok=ntok, **kw))
     if 0 in S:
         for ctxf in (0, F["NOCASE"], F["IGNORE"], F["COMMENTS"]):
             for level in (0, 1):
